@@ -811,7 +811,7 @@ def e2e_cells(ctx, n):
     return cells[:n]
 
 
-def run_e2e(ctx, cells, tier_all):
+def run_e2e(ctx, cells, tier_all, full=True):
     results = gen.pmap(e2e_case, [(c, tier_all, i) for i, c in enumerate(cells)])
     t1, t2, agg = [], [], {}
     for res in results:
@@ -834,10 +834,10 @@ def run_e2e(ctx, cells, tier_all):
         ctx.oblige(f"{name} ({tot} libraries)", badn == 0, f"{badn} of {tot}: {detail}", "T1")
     f1, e1, _ = coq.eval_checks("c08t1", "From GV Require Import Model.Lro.", "", t1)
     ctx.oblige(f"T1 emitted from_gapic arguments / operations_client = model output ({len(t1)} comparisons over {len(cells)} generated libraries)",
-               not f1 and not e1 and len(t1) > 0, "; ".join((f1 + e1)[:6]), "T1")
+               not f1 and not e1 and (len(t1) > 0 or not full), "; ".join((f1 + e1)[:6]), "T1")
     f2, e2, _ = coq.eval_checks("c08t2", "From GV Require Import Model.Lro.", "", t2)
     ctx.oblige(f"T2 generation outcome and future contract: model = implementation on {len(t2)} observations",
-               not f2 and not e2 and len(t2) > 0, "; ".join((f2 + e2)[:6]))
+               not f2 and not e2 and (len(t2) > 0 or not full), "; ".join((f2 + e2)[:6]))
     ctx.notes["e2e_cells"] = len(cells)
     return f1 + f2
 
@@ -859,4 +859,4 @@ def replay(ctx, rep):
     if not cell:
         return run(ctx)
     run_schema(ctx, [cell])
-    run_e2e(ctx, [cell], tier_all=True)
+    run_e2e(ctx, [cell], tier_all=True, full=False)
